@@ -80,6 +80,19 @@ def shard(tier, seed, shard, nshards):
             G.gen_affine_cascade(rnd) if i % 12 == 10 else None))
         if spec is None:
             spec = G.gen_cascade(rnd)
+        if i % 12 in (1, 7):
+            # a spacetime mapping on SOME Einsums of the cascade only (mostly an early one): the
+            # others must be emitted exactly as they are alone, without any display code
+            from ..gen import spacetime as GS
+            outs = list(dict.fromkeys(e.out.name for e in spec.exprs))
+            if len(outs) > 1:
+                only = [outs[0]] if rnd.random() < 0.6 else rnd.sample(outs, rnd.randint(1, len(outs) - 1))
+                s2 = GS.add_spacetime(rnd, spec, only=only, slip=False)
+                if s2 is not None:
+                    s2.tags = list(s2.tags) + ["spacetime-on-some-einsums"]
+                    if hasattr(spec, "_extents"):
+                        s2._extents = spec._extents
+                    spec = s2
         run_one(st, spec, rnd)
     st.counters["hook_calls"] = dict(hooks.CALLS)
     return st.result()
@@ -103,7 +116,8 @@ def finalize(results, counters, tier, seed):
     if counters.get("monitor", {}).get("blocks-compared", 0) == 0:
         inc.append("no block was ever compared with its stand-alone compilation")
     miss = [s for s in ("cascade2", "cascade3", "cascade4", "mapped-predecessor", "map-shape",
-                        "map-occupancy", "map-flatten", "intermediate-reordered")
+                        "map-occupancy", "map-flatten", "intermediate-reordered",
+                        "spacetime-on-some-einsums")
             if counters.get("strata_ok", {}).get(s, 0) == 0]
     if miss:
         inc.append("strata never executed: %r" % miss)
